@@ -100,6 +100,10 @@ fn call(oracle: &str, v: &Value) -> Value {
         "incan::emit_slice" => c05::emit_slice(v),
         #[cfg(feature = "lsp")]
         "incan::emit_division" => c05::emit_division(v),
+        #[cfg(feature = "lsp")]
+        "incan::emit_promotion" => c05::emit_promotion(v),
+        #[cfg(feature = "lsp")]
+        "lsp::diagnostic_range" => c05::diagnostic_range(v),
         "syntax::get_line_info" => {
             use incan_syntax::diagnostics::{format_error, CompileError};
             use incan_syntax::ast::Span;
@@ -203,6 +207,95 @@ mod c05 {
             Ok(Err(m)) => verdict(false, json!({"front_end_error": m}), json!({"helper": helper}), &echo, "a well-typed division must compile"),
             Err(m) => verdict(false, json!({"panicked": m}), json!({"helper": helper}), &echo, "front end must not panic"),
         }
+    }
+
+    /// C07 bounded stand-in for the lowering (expression typing of operands, compound-assignment desugaring) and
+    /// emit_binop_expr on `+ - *` and `**`: in the generated Rust exactly the int operands of a float operation are
+    /// promoted (`(e) as f64`), whatever the syntactic form of the operand (variable, field, len(), index).
+    pub fn emit_promotion(v: &Value) -> Value {
+        let ops = ["+", "-", "*", "**"];
+        let op = ops[v["op"].as_u64().unwrap() as usize % 4];
+        let lforms = [("a", false), ("x", true), ("it.qty", false), ("it.price", true)];
+        let rforms = [("a", false), ("x", true), ("it.qty", false), ("it.price", true), ("len(xs)", false), ("xs[0]", false), ("2", false), ("-2", false), ("b", false)];
+        let (l, lf) = lforms[v["l"].as_u64().unwrap() as usize % 4];
+        let (r, rf) = rforms[v["r"].as_u64().unwrap() as usize % 9];
+        let compound = v["compound"].as_bool().unwrap();
+        if op == "**" && compound { return verdict(true, json!(null), json!(null), v, "no `**=`"); }
+        if op != "**" && (r == "2" || r == "-2" || r == "b") { return verdict(true, json!(null), json!(null), v, "literal / second-variable forms are used for ** only"); }
+        let float = if op == "**" { !(!lf && r == "2") } else { lf || rf };
+        let (lname, lfloat) = if compound { (if lf { "total" } else { "n" }, lf) } else { (l, lf) };
+        if compound && float != lfloat { return verdict(true, json!(null), json!(null), v, "compound form would change the target's kind: rejected by the checker"); }
+        if compound && l.contains('.') { return verdict(true, json!(null), json!(null), v, "compound target is a local"); }
+        let stmt = if compound { format!("    {} {}= {}\n", lname, op, r) } else { format!("    q = {} {} {}\n", l, op, r) };
+        // `shadow`: the statement sits in an inner block whose `total` / `n` shadow outer variables of the OTHER kind
+        let shadow = v["shadow"].as_bool().unwrap_or(false);
+        let src = if shadow {
+            format!("model Item:\n    qty: int\n    price: float\n\ndef f(it: Item, xs: List[int], a: int, b: int, x: float) -> None:\n    mut total: int = 1\n    mut n: float = 0.5\n    if a > 0:\n        mut total: float = 0.5\n        mut n: int = 1\n    {}\ndef main() -> None:\n    pass\n", stmt)
+        } else {
+            format!("model Item:\n    qty: int\n    price: float\n\ndef f(it: Item, xs: List[int], a: int, b: int, x: float) -> None:\n    mut total: float = 0.5\n    mut n: int = 1\n{}\ndef main() -> None:\n    pass\n", stmt)
+        };
+        let got = guarded(|| {
+            let tokens = incan::frontend::lexer::lex(&src).map_err(|e| format!("lex: {:?}", e.first().map(|x| x.message.clone())))?;
+            let prog = incan::frontend::parser::parse(&tokens).map_err(|e| format!("parse: {:?}", e.first().map(|x| x.message.clone())))?;
+            incan::IrCodegen::new().try_generate(&prog).map_err(|e| format!("codegen: {}", e))
+        });
+        let echo = { let mut a = v.clone(); a["source"] = json!(src); a };
+        match &got {
+            Ok(Ok(code)) => {
+                let flat: String = code.split_whitespace().collect::<Vec<_>>().join(" ");
+                let key = if compound { format!("{} = {} ", lname, lname) } else { "let q = ".to_string() };
+                let Some(i) = flat.find(&key) else { return verdict(false, json!({"statement": null}), json!("the statement in the generated code"), &echo, "statement not found in the generated code"); };
+                let start = if compound { i + lname.len() + 3 } else { i + key.len() };
+                let rest = &flat[start..];
+                let expr = &rest[..rest.find(';').unwrap_or(rest.len())];
+                if op == "**" {
+                    let ok = if !float { expr.contains(".pow(") && !expr.contains("powf") } else { expr.contains(".powf(") && (lf || expr.starts_with('(')) };
+                    return verdict(ok, json!({"expr": expr}), json!({"kind": if float { "float: powf with the int operands promoted" } else { "int: pow" }}), &echo, "`**`: the computed value has the table's kind");
+                }
+                // split at the top-level ` op `
+                let pat = format!(" {} ", op);
+                let (mut depth, mut cut) = (0i32, None);
+                let b: Vec<char> = expr.chars().collect();
+                for k in 0..b.len() {
+                    match b[k] { '(' | '[' => depth += 1, ')' | ']' => depth -= 1, _ => {} }
+                    if depth == 0 && expr[k..].starts_with(&pat) && cut.is_none() && k > 0 { cut = Some(k); }
+                }
+                let Some(c) = cut else { return verdict(false, json!({"expr": expr}), json!("L op R"), &echo, "infix operator not found at top level"); };
+                let (le, re) = (expr[..c].trim(), expr[c + pat.len()..].trim());
+                let (lp, rp) = (le.ends_with("as f64"), re.ends_with("as f64"));
+                let want = (float && !lfloat, float && !rf);
+                verdict((lp, rp) == want, json!({"expr": expr, "promoted": [lp, rp]}), json!({"promoted": [want.0, want.1]}), &echo,
+                        "generated expression: exactly the int operands of a float operation are promoted")
+            }
+            Ok(Err(m)) => {
+                // pre-existing, outside C07: `int ** <non-literal or negative literal>` produces no program at all ("casts cannot be followed by a method call")
+                if op == "**" && m.contains("casts cannot be followed by a method call") { return verdict(true, json!({"front_end_error": m}), json!(null), &echo, "no program is generated (tolerated: nothing of the wrong kind is computed)"); }
+                verdict(false, json!({"front_end_error": m}), json!("a program"), &echo, "a well-typed arithmetic statement must compile")
+            }
+            Err(m) => verdict(false, json!({"panicked": m}), json!("a program"), &echo, "front end must not panic"),
+        }
+    }
+
+    /// C19 bounded stand-in for compile_error_to_diagnostic (lsp_types::Diagnostic/Url values: outside the verifier's
+    /// reach): the published range and every related-information range lie inside the document with start <= end.
+    pub fn diagnostic_range(v: &Value) -> Value {
+        use incan::frontend::diagnostics::CompileError;
+        use incan::frontend::ast::Span;
+        let s = v["s"].as_str().unwrap().to_string();
+        let (a, b) = (super::gu(v, "start"), super::gu(v, "end"));
+        if a == usize::MAX { return verdict(true, json!(null), json!(null), v, "start == usize::MAX is outside the stated input invariant (A3)"); }
+        let got = guarded(|| {
+            let uri = tower_lsp::lsp_types::Url::parse("file:///t.incn").unwrap();
+            let err = CompileError::new("m".to_string(), Span { start: a, end: b }).with_note("n").with_hint("h");
+            let d = incan::lsp::diagnostics::compile_error_to_diagnostic(&err, &s, &uri);
+            let mut rs = vec![((d.range.start.line as u64, d.range.start.character as u64), (d.range.end.line as u64, d.range.end.character as u64))];
+            for ri in d.related_information.unwrap_or_default() { rs.push(((ri.location.range.start.line as u64, ri.location.range.start.character as u64), (ri.location.range.end.line as u64, ri.location.range.end.character as u64))); }
+            rs
+        });
+        let doc_end = super::pos_of(&s, s.chars().count());
+        let ok = matches!(&got, Ok(rs) if rs.iter().all(|(st, en)| st <= en && *en <= doc_end));
+        verdict(ok, match &got { Ok(rs) => json!({"ranges": rs.iter().map(|(a, b)| json!([[a.0, a.1], [b.0, b.1]])).collect::<Vec<_>>()}), Err(m) => json!({"panicked": m}) },
+                json!({"every_range": "start <= end <= end of document", "doc_end": [doc_end.0, doc_end.1]}), v, "published diagnostic ranges lie inside the document with start <= end")
     }
 
     pub fn emit_slice(v: &Value) -> Value {
@@ -456,6 +549,20 @@ fn search(oracle: &str, seed: u64, budget: u64, skip: &[String]) -> Value {
                 let pos = ["let", "return", "arg"];
                 let k = n % 1176;
                 json!({"op": k % 7, "lfloat": (k / 7) % 2 == 0, "rfloat": (k / 14) % 2 == 0, "ann_float": (k / 28) % 2 == 0, "form": forms[((k / 56) % 7) as usize], "position": pos[((k / 392) % 3) as usize]})
+            }
+            "incan::emit_promotion" => {
+                // exhaustive: 4 operators x 4 left forms x 9 right forms x plain/compound x flat/shadowing block = 576 programs (inapplicable combinations are skipped)
+                let k = n % 576;
+                json!({"op": k % 4, "l": (k / 4) % 4, "r": (k / 16) % 9, "compound": (k / 144) % 2 == 1, "shadow": (k / 288) % 2 == 1})
+            }
+            "lsp::diagnostic_range" => {
+                // exhaustive over a fixed document list x every (start, end) in 0..=len+1 plus the extremes
+                let docs = DOCS;
+                let d = docs[(n % docs.len() as u64) as usize];
+                let m = (d.len() + 4) as u64;
+                let q = n / docs.len() as u64;
+                let pick = |z: u64| -> usize { if z < (d.len() + 2) as u64 { z as usize } else if z == (d.len() + 2) as u64 { usize::MAX - 1 } else { usize::MAX / 2 } };
+                json!({"s": d, "start": pick(q % m), "end": pick((q / m) % m)})
             }
             "incan::emit_division" => {
                 // exhaustive: 3 operators x 2 x 2 operand kinds x plain/compound = 24 programs
